@@ -166,8 +166,8 @@ func buildCS(c csCase, now int64) csWire {
 			sig += "A"
 		case "append-pad":
 			sig += "="
-		case "urlsafe":
-			sig = base64.URLEncoding.EncodeToString(raw)
+		case "urlsafe": // unpadded URL-safe alphabet: always a different string (a padded one is a no-op whenever the MAC has no + or /)
+			sig = base64.RawURLEncoding.EncodeToString(raw)
 		case "raw-nopad":
 			sig = base64.RawStdEncoding.EncodeToString(raw)
 		case "hex":
@@ -247,7 +247,7 @@ func buildCS(c csCase, now int64) csWire {
 		case "not-base64":
 			secret = "!!!" + secret[3:]
 		case "urlsafe":
-			secret = base64.URLEncoding.EncodeToString(ct)
+			secret = base64.RawURLEncoding.EncodeToString(ct)
 		case "plaintext":
 			secret = base64.StdEncoding.EncodeToString([]byte(plain))
 		case "other-key":
